@@ -263,16 +263,18 @@ def attribution(case, f, alt=False):
     specification attributes to it given everything the generator wrote: the file's own header / .license sibling, the
     REUSE.toml tables or dep5 paragraph that match it and their precedence.
 
-    A file whose own tags, or whose dep5 paragraph, hold a licence text that is no SPDX expression and on which the
-    expression parser gives up with an internal error cannot be given a licence: clause (d), it has to be named as
-    unreadable (never dropped).  alt=True is the other defensible reading for the *own* tags only: such a header is
-    treated like any header with an unparseable expression, i.e. nothing is taken from the file."""
+    A file whose own tags hold a text that is no SPDX expression — also one of those on which the library's parser used
+    to fail internally (`()`, `( AND MIT`: key "choke") — is a file with an unparseable expression: nothing is taken from it
+    (C02: "a file holding an unparseable licence expression contributes no information at all"; the tool's behaviour since
+    fixes/expression-parser-internal-failures.diff).  alt=True is the reading the tool had before that repair, still accepted
+    by the oracle: the file is named as unreadable, clause (d).  A dep5 paragraph whose licence is no expression makes the
+    report of every file it matches fail: those files are unreadable under both readings."""
     if f["kind"] == "fifo":
         return False, False, []
     own = f["how"] in OWN_HOWS
     cop, exprs = (f["cop"], list(f["exprs"])) if own else (0, [])
     choke = own and bool(f.get("choke"))
-    if choke and alt:
+    if choke and not alt:
         cop, exprs, choke = 0, [], False
     glob = case["glob"]
     if glob == "tomltree":
